@@ -94,7 +94,7 @@ MUST_REACH = [
 MUST_COUNT = ["pipeline_runs", "audit_events", "audit_write_opens", "stub_invocations",
               "files_compared", "changed_flag_checks", "unchanged_runs_checked",
               "regeneration_duties_checked", "mkfn_chains"]
-MIN_NONTRIVIAL = {"quick": 150, "thorough": 3000}
+MIN_NONTRIVIAL = {"quick": 150, "thorough": 1500}
 EXHAUSTIVE = {"quick": False, "thorough": False}
 LEVEL_TEXT = ("Enumeration of fault/change histories: every history of 3 runs (thorough: plus "
               "16x64x64 histories of 4 runs) of the single-plot pipeline over {keep,change data} x {keep,change "
